@@ -4,7 +4,8 @@ from harness.slice import SlicedTarget
 from harness import tie, tie_explicit, tie_dep
 
 PID = "C25"
-TIE_IMPORTS = "From LunaModel Require Import GwPhyCodec GwPhyCodec_proofs GwPhy GwPhy_proofs GwPhyTie GwPhyTie_proofs GwPhyMon.\nFrom LunaLib Require Import ReachDep.\n"
+TIE_IMPORTS = ("From LunaModel Require Import GwPhyCodec GwPhyCodec_proofs GwPhy GwPhyTxU_proofs GwPhyTxIo_proofs GwPhyTie GwPhyTie_proofs GwPhyMon.\n"
+               "From LunaLib Require Import ReachDep.\nFrom Coq Require Import Lia.\n")
 
 CLOCKS = {"usb_io": 1, "usb": 4}
 
@@ -418,14 +419,96 @@ def obligations(targets, tier):
 
 
 def tie_theorems(targets, tier):
-    return ""
+    g = [t for t in targets if t.kind == "tx"][0].modname
+    out = ""
+    for name, datas, modes in tx_ties(tier):
+        alpha = f"alpha_ok txg (txg_step 8) (txg_alpha {datas} {modes}) txg_init"
+        out += f"""
+Theorem C25_{name}_model : forall tr, {alpha} tr = true ->
+  run {g}.step {g}.init tr = run (tx_step 8) txs_init tr.
+Proof. intros tr H. rewrite ({name}_T.tie tr H). apply run_txg. Qed.
+
+(* UTMI operating modes on the netlist: modes 1 (non-driving) and 3 never drive D+/D-, mode 2 drives tx_data[0] raw *)
+Theorem C25_{name}_opmode : forall tr, {alpha} tr = true ->
+  Forall2 (fun i o => opmode_ok i o = true) tr (run {g}.step {g}.init tr).
+Proof. intros tr H. rewrite (C25_{name}_model tr H). apply run_opmode. Qed.
+"""
+    name, datas, modes = tx_ties(tier)[0]
+    out += f"""
+(* the tie composed with the session theorem on one concrete session inside the tie's alphabet (3 idle cycles with
+   tx_data = FF, the bytes FF 00 FF, 22 idle cycles, the byte 00): the NETLIST's D+/D-/oe equal the specification *)
+Definition C25_ph : list (list N * list N) := [([], [255; 255; 255]); ([255; 0; 255], repeat 255 44); ([0], repeat 0 24)].
+Lemma C25_ph_ok : Forall phase_ok C25_ph.
+Proof.
+  constructor; [split; [constructor | intro H; exfalso; apply H; reflexivity]|].
+  constructor; [split; [repeat constructor | intros _; vm_compute; lia]|].
+  constructor; [split; [repeat constructor | intros _; vm_compute; lia]|]. constructor.
+Qed.
+Theorem C25_{name}_session : let tr := tx_trace 0 (tx_session_in 8 txu_init C25_ph) in
+  map tx_line_of (run {g}.step {g}.init tr) =
+  firstn (length tr) ((false, false, false) :: line_idle :: rep4 (flat_map (fun p => phase_line (fst p) (length (snd p))) C25_ph)).
+Proof.
+  intro tr.
+  assert (H : alpha_ok txg (txg_step 8) (txg_alpha {datas} {modes}) txg_init tr = true) by (vm_compute; reflexivity).
+  rewrite (C25_{name}_model tr H). destruct (tx_session_line C25_ph C25_ph_ok) as [L _]. cbv zeta in L.
+  fold tr in L. rewrite run_length in L. exact L.
+Qed.
+"""
+    return out
 
 
 def tie_theorem_names(targets, tier):
-    return []
+    names = []
+    for name, _, _ in tx_ties(tier):
+        names += [f"C25_{name}_model", f"C25_{name}_opmode"]
+    names.append(f"C25_{tx_ties(tier)[0][0]}_session")
+    return names
 
 
-ASSUMPTIONS = []
-LEVEL_TEXT = "in progress"
-LEVEL_NOTE = "in progress"
-TECHNIQUE = "in progress"
+ASSUMPTIONS = [
+    "UTMI transmit contract (theorems 2, 3; monitor cm_tx): tx_valid rises with the first byte, every byte is held until a usb "
+    "cycle with tx_ready, tx_valid falls in the cycle after the last byte's tx_ready; tx_data is arbitrary while tx_valid = 0",
+    "inter-packet gap on the transmit side: tx_valid stays low until the previous packet's EOP has left the line "
+    "(phase_ok: a phase lasts at least 1 + length (frame0 bytes) usb cycles); shorter gaps are not covered",
+    "first byte of a transmitted packet does not begin with five 1 bits (first_ok; every USB PID qualifies): for such packets "
+    "LUNA's stuffer starts one bit late w.r.t. USB 2.0 7.1.9 (frame0 instead of frame; C25_frame0_differs); reported, not patched",
+    "two-clock environment: usb (12 MHz) ticks in every 4th usb_io (48 MHz) step, phase-aligned with the strobe counter in "
+    "phy.py (both come out of reset together); UTMI inputs change only after usb edges",
+    "receive theorems: exact 4x sampling of the line at an arbitrary phase, at least 7 idle samples after reset (2 bit times), "
+    "line idle again after the EOP; clock drift / jitter is NOT covered by any theorem (model-vs-simulator comparison only)",
+    "receive theorems end at the write ports of the two AsyncFIFOBuffered instances; the UTMI-side delivery "
+    "(rx_data/rx_valid/rx_active/rx_error) is checked by the specification monitor cm_rx on simulator traces, not proved",
+    "R tie of the transmit side: tx_data drawn from a small alphabet (see obligation_list); all data values are covered by "
+    "the parametric theorems about the model plus corr_phytx on random bytes",
+    "the op-mode clause takes UTMI's encodings as the specification (00 normal, 01 non-driving, 10 no bit-stuff/NRZI); "
+    "mode 11 (undefined) must not drive",
+    "internal FIFO write ports of RxPipeline are observed by calling RxPipeline.elaborate() in the harness and looking up the "
+    "named sub-modules of the returned Module (no change to /repo)",
+]
+LEVEL_TEXT = (
+    "Machine-checked proof, PARTIAL. (1) Line code, all byte sequences: unframe (frame bytes) = bytes, unstuff (stuff l) = l, at most "
+    "six consecutive ones after stuffing, a violation is reported iff seven ones arrive. (2) Transmit: for the code-shaped two-clock model "
+    "of GatewarePHY's transmit side (TxShifter, TxBitstuffer, TxPipeline FSM, 3-stage synchronisers, strobe counter, TxNRZIEncoder, op-mode "
+    "mux) and every UTMI session from reset (any packets, any bytes, any tx_data while idle), D+/D-/oe show exactly idle, SYNC, NRZI of the "
+    "bit-stuffed bytes, SE0 SE0 J at 4 usb_io cycles per symbol, and tx_ready is high one usb cycle per byte (C25_tx_session_line; "
+    "unbounded in packets and lengths). (3) Receive: for the code-shaped model of RxPipeline up to its FIFO write ports and an ideally "
+    "4x-sampled line at ANY phase, exactly start flag, the bytes, end flag are written and the error flag stays down "
+    "(C25_rx_frame_cycles, all byte sequences); with seven consecutive ones the end flag is written with the error flag up "
+    "(C25_rx_violation_cycles). (4) Ties, re-proved on every run against the netlist regenerated from /repo: the whole two-clock transmit "
+    "side of GatewarePHY == model on all traces over a small tx_data alphabet (certified product reachability), with corollaries "
+    "netlist = model, the UTMI op-mode clause on the netlist, and netlist line = specification on a concrete session; each receive class "
+    "(RxClockDataRecovery, RxNRZIDecoder, RxPacketDetect, RxBitstuffRemover, RxShifter) == its model on all input traces; pull-up / "
+    "pull-down wiring on all inputs. The composition of the receive classes (RxPipeline's wiring) and all 8-bit data paths are covered by "
+    "model-vs-simulator correspondence, and the complete PHY incl. the clock-domain-crossing FIFOs by specification monitors "
+    "(frame / unframe evaluated on simulator traces).")
+LEVEL_NOTE = (
+    "PARTIAL: no theorem covers clock drift/jitter (+-0.25 %), the AsyncFIFOBuffered crossings to the UTMI receive outputs, or "
+    "inter-packet gaps shorter than an EOP; the transmit theorem is about frame0 (= frame for every first byte that is a PID). "
+    "The unchanged tree violates the property in four places (findings/C25-*.diff, each with a replay): op-mode constants swapped w.r.t. "
+    "UTMI; pull-down request wired to pullup.o; transmit bit stuffer never reset (ResetInserter without a domain resets nothing), so ones "
+    "counted while idle can insert a spurious 0 after SYNC; rx_error is a single 48 MHz pulse that the 12 MHz side sees in one of four "
+    "phases. The models are the repaired behaviour; ./check passes with the four patches applied and reports VIOLATION on the unchanged tree. "
+    "Trusted: Coq kernel + vm_compute, Amaranth elaboration, nir2coq/Netlist.v (validated each run against Amaranth's simulator), harness.")
+TECHNIQUE = ("Rocq proof: induction over bit/byte lists and sessions on code-shaped two-clock models; macro-step simulation (4 cycles = 1 symbol) "
+             "between cycle-level and symbol-level receive machines; certified product reachability (lock-step, state-dependent alphabet) "
+             "against the netlist regenerated from source; specification monitors and model correspondence on simulator traces")
